@@ -2,6 +2,9 @@ CONSTANTS
   MaxObjs = 2
   MaxOps = 4
   MaxSteps = 5
+  NRepos = 2
+  EmitEvery = 40
+  Unscoped = {}
   JsonTree = FALSE
   StatusOnly = FALSE
   RemoveDrops = FALSE
